@@ -4,7 +4,7 @@ from .common import *  # noqa
 KEYS = {"flow_rates", "comp_rates", "derived", "outputs"}
 # observations whose model value is the property's specified value (a disagreement there is a failing input);
 # on the others the correspondence supports the tie and the oracle searches for the failing input
-SPEC_KEYS = set()
+SPEC_KEYS = {"flow_rates", "comp_rates"}
 
 
 def run(tier, seed):
